@@ -433,3 +433,12 @@ NUM_CONFIGS = {"C04": [(1, 12, "double", 0, 0, 0, 4), (1, 8, "double", 1, 0, 0, 
                        (1, 6, "double", 0, 0, 0, None), (1, 8, "double", 0, 1, 0, None), (1, 4, "float", 0, 0, 0, None)],
                "C05": [(2, 8, "double", 0, 0, 0, 3), (2, 5, "double", 1, 0, 0, None), (2, 5, "double", 0, 1, 0, None), (2, 5, "float", 0, 0, 0, None), (2, 5, "double", 0, 0, 1, None),
                        (2, 3, "double", 0, 1, 1, None), (2, 3, "float", 0, 0, 0, None)]}
+
+
+# ---- quick tier sizing: with all campaigns of a property sharing one 16-slot pool the quick tier has room for more cases -------------
+_QUICK_FACTOR = {"C01": 3, "C02": 4, "C03": 3, "C06": 3, "C07": 3, "C08": 4, "C09": 3, "C10": 3, "C12": 4, "C13": 3, "C14": 3, "C15": 2, "C16": 4, "C17": 4, "C18": 3, "C20": 3}
+for _p, _f in _QUICK_FACTOR.items():
+    for _j in PROPS[_p].jobs:
+        _pr, _ca, _sz = _j.quick
+        if _pr > 0:
+            _j.quick = (_pr, _ca * _f, _sz)
